@@ -154,6 +154,25 @@ pub fn cases(tier: &str) -> Vec<Value> {
             }
         }
     }
+    // (d) the same question asked three times with time passing in between, the upstream's TTL
+    // changing from reply to reply: whatever the client gets -- relayed or from the cache -- is the
+    // most recent upstream reply with its TTLs reduced by exactly the whole seconds since THAT reply
+    // arrived (not since some earlier one)
+    for t1 in [2u32, 300] {
+        for t2 in [2u32, 300] {
+            for t3 in [2u32, 300] {
+                for d1 in [1000u64, 3000] {
+                    for d2 in [1000u64, 3000] {
+                        for tr in ["udp", "tcp"] {
+                            let mut q = base.clone();
+                            q["transport"] = json!(tr);
+                            out.push(json!({"engine":"enet","check":"c03","kind":"refill","q":q,"ttls":[t1, t2, t3],"gaps_ms":[0, d1, d2]}));
+                        }
+                    }
+                }
+            }
+        }
+    }
     out
 }
 
@@ -438,9 +457,117 @@ fn run_pair(case: &Value) -> CaseResult {
     res
 }
 
+/// The same question several times, time passing, upstream TTLs changing (see `cases`, part d).
+fn run_refill(case: &Value) -> CaseResult {
+    let spec = RigSpec { listeners: vec!["::1".into()], n_upstreams: 1, yaml: BASE_YAML.into() };
+    let mut rig = match Rig::start(&spec) {
+        Ok(r) => r,
+        Err(e) => return CaseResult::machinery(e),
+    };
+    let cip: IpAddr = "::1".parse().unwrap();
+    let mut res = CaseResult::ok("");
+    let ttls: Vec<u32> = case["ttls"].as_array().map(|a| a.iter().filter_map(|x| x.as_u64()).map(|x| x as u32).collect()).unwrap_or_default();
+    let gaps: Vec<u64> = case["gaps_ms"].as_array().map(|a| a.iter().filter_map(|x| x.as_u64()).collect()).unwrap_or_default();
+    let tcp = case["q"]["transport"].as_str() == Some("tcp");
+    let dst = rig.listen_addr(0);
+    let mut latest: Option<(Msg, std::time::Duration)> = None; // most recent upstream reply and when it was given
+    let mut cls = String::new();
+    for (k, ttl) in ttls.iter().enumerate() {
+        if gaps.get(k).copied().unwrap_or(0) > 0 {
+            rig.advance(std::time::Duration::from_millis(gaps[k]));
+        }
+        let id = 0x7100 + k as u16;
+        let (qm, qb) = build_query(&case["q"], id);
+        let mut uc = None;
+        let mut tc = None;
+        let sent = if tcp {
+            TcpClient::connect(Some(cip), dst).and_then(|mut c| {
+                c.conn.send_frame(&qb)?;
+                tc = Some(c);
+                Ok(())
+            })
+        } else {
+            UdpClient::new(cip).and_then(|c| {
+                c.send(dst, &qb)?;
+                uc = Some(c);
+                Ok(())
+            })
+        };
+        if let Err(e) = sent {
+            let _ = rig.stop();
+            return CaseResult::machinery(e);
+        }
+        let before_udp = rig.upstreams[0].udp_rx.len();
+        let before_tcp = rig.upstreams[0].tcp_frames_total();
+        let mut got: Option<Vec<u8>> = None;
+        let mut poll_client = |got: &mut Option<Vec<u8>>| -> bool {
+            if let Some(c) = uc.as_mut() {
+                c.poll();
+                if let Some((b, _)) = c.rx.first() {
+                    *got = Some(b.clone());
+                    return true;
+                }
+            }
+            if let Some(c) = tc.as_mut() {
+                c.poll();
+                if let Some(b) = c.conn.frames_in.first() {
+                    *got = Some(b.clone());
+                    return true;
+                }
+            }
+            false
+        };
+        let _ = rig.wait_until(|r| r.upstreams[0].udp_rx.len() > before_udp || r.upstreams[0].tcp_frames_total() > before_tcp || poll_client(&mut got), "query is forwarded or answered");
+        let asked = rig.upstreams[0].udp_rx.len() > before_udp || rig.upstreams[0].tcp_frames_total() > before_tcp;
+        if asked {
+            let (oqb, via_udp, src) = if rig.upstreams[0].udp_rx.len() > before_udp {
+                let (b, s) = rig.upstreams[0].udp_rx[before_udp].clone();
+                (b, true, Some(s))
+            } else {
+                let c = rig.upstreams[0].conns.iter().rev().find(|c| !c.frames_in.is_empty()).unwrap();
+                (c.frames_in.last().unwrap().clone(), false, None)
+            };
+            if let Ok((oq, _)) = rd::decode(&oqb) {
+                let r = json!({"rcode": 0, "an": [0], "ns": [], "ar": [], "compress": true, "opt": true, "ttl_override": ttl});
+                let reply = build_reply(&r, &oq);
+                let rb = rd::encode(&reply, true);
+                let _ = if via_udp { rig.upstreams[0].udp_reply(src.unwrap(), &rb) } else { rig.upstreams[0].conns.iter_mut().rev().find(|c| !c.frames_in.is_empty()).unwrap().send_frame(&rb) };
+                latest = Some((reply, rig.virt_elapsed));
+            }
+            let _ = rig.wait_until(|_r| poll_client(&mut got), "client receives the reply");
+        }
+        cls.push(if asked { 'F' } else { 'H' });
+        let Some(bytes) = got else {
+            res.violations.push(Violation::new("no-reply", format!("ask {k}: the client received no reply"), case.clone()));
+            break;
+        };
+        let Some((up, at)) = &latest else {
+            res.violations.push(Violation::new("answered-without-asking", format!("ask {k}: answered although the upstream was never asked"), case.clone()));
+            break;
+        };
+        let age = (rig.virt_elapsed - *at).as_secs() as u32;
+        for (oracle, what) in judge_faithful(&qm, up, &bytes, age) {
+            res.violations.push(
+                Violation::new(oracle, format!("ask {k} ({}): the most recent upstream reply (TTL {}) arrived {age} whole second(s) ago: {what}", if asked { "relayed" } else { "from the cache" }, up.answer.first().map(|r| r.ttl).unwrap_or(0)), case.clone())
+                    .sig("oracle", oracle)
+                    .sig("part", "refill"),
+            );
+        }
+    }
+    let ps = rig.stop();
+    if let Some(p) = ps.first() {
+        res.violations.push(Violation::new("no-reply-after-panic", format!("service task panicked: {} at {}", p.msg, crate::common::panics::short_loc(&p.loc)), case.clone()).sig("loc", crate::common::panics::short_loc(&p.loc)));
+    }
+    res.class = format!("refill:{cls}");
+    res
+}
+
 pub fn run_case(case: &Value) -> CaseResult {
     if case["kind"].as_str() == Some("pair") {
         return run_pair(case);
+    }
+    if case["kind"].as_str() == Some("refill") {
+        return run_refill(case);
     }
     let spec = RigSpec { listeners: vec!["::1".into()], n_upstreams: 1, yaml: BASE_YAML.into() };
     let mut rig = match Rig::start(&spec) {
@@ -504,7 +631,7 @@ pub fn run(tier: &str, replay: Option<Value>) -> ! {
     let agg = netrun::run_sharded(&mut rep, "C03", tier, cases, 16);
     rep.cov("evaluations", agg.executions);
     rep.cov("distinct_nontrivial", agg.classes.len() as u64);
-    rep.cov("rule", "one fault-free exchange per execution on a fresh in-process DnsService ([::1] listener): (a) every query shape (3 names x 5 types x 2 classes x 5 EDNS x 3 flag sets x UDP/TCP) x fixed replies; (b) fixed queries x every reply shape (rcodes x one section over all record lists of length <=2 from a 9-record alphabet (incl. records whose names share a suffix first written inside an earlier record's rdata), the other sections in {[],[1]} x compression x OPT absent / last / first / in the middle of the additional section); (c) pairs of exchanges on one service whose second question differs from the first in one component (class x3, type x2 (QTYPE ANY is answered locally and therefore not part of this alphabet), name x2, CD, DO, EDNS, or nothing) x transport x order, the second answered differently upstream: the second client must get the upstream's answer to ITS question, or -- only for the identical question -- the first answer. distinct = (rcode, section sizes, transport) classes");
+    rep.cov("rule", "one fault-free exchange per execution on a fresh in-process DnsService ([::1] listener): (a) every query shape (3 names x 5 types x 2 classes x 5 EDNS x 3 flag sets x UDP/TCP) x fixed replies; (b) fixed queries x every reply shape (rcodes x one section over all record lists of length <=2 from a 9-record alphabet (incl. records whose names share a suffix first written inside an earlier record's rdata), the other sections in {[],[1]} x compression x OPT absent / last / first / in the middle of the additional section); (c) pairs of exchanges on one service whose second question differs from the first in one component (class x3, type x2 (QTYPE ANY is answered locally and therefore not part of this alphabet), name x2, CD, DO, EDNS, or nothing) x transport x order, the second answered differently upstream: the second client must get the upstream's answer to ITS question, or -- only for the identical question -- the first answer; (d) the same question asked three times with 1 s / 3 s in between while the upstream's TTL changes (2 s / 300 s per reply, all combinations): every answer is the most recent upstream reply with TTLs reduced by exactly the whole seconds since that reply. distinct = (rcode, section sizes, transport) classes");
     rep.cov("exhaustive", true);
     rep.cov("outcome_classes", serde_json::json!(agg.classes));
     rep.cov("workers_in_private_netns", agg.isolated_workers as u64);
